@@ -49,7 +49,7 @@ pub fn classes() -> &'static Vec<LexClass> {
             v.push(lc(&format!("punct:{p}"), p, kind));
         }
         v.push(lc("dim", "#dim", "DIM_KW"));
-        for id in ["a", "x1", "_x1", "foo_bar", "Z", "__a", "θ", "Δx", "变量", "été", "pragmatic", "pi", "OPENQASMx", "O", "p", "pr", "dimension", "inv2", "im", "dts", "e3", "b1", "xF", "ifx", "input1"] {
+        for id in ["a", "x1", "_x1", "foo_bar", "Z", "__a", "θ", "Δx", "变量", "été", "pragmatic", "pi", "OPENQASMx", "O", "p", "pr", "dimension", "inv2", "im", "dts", "e3", "b1", "xF", "ifx", "input1", "μs", "µs", "_q", "pragma2", "pragma_1", "void1", "π", "τ"] {
             v.push(lc(&format!("ident:{id}"), id, "IDENT"));
         }
         for h in ["$0", "$12"] {
@@ -91,7 +91,7 @@ pub fn classes() -> &'static Vec<LexClass> {
         for b in ["\"0101\"", "\"0\"", "\"0_1\"", "\"1111_0000\"", "\"0_1_0\"", "\"1010_0101_1111\"", "\"1_1_1_1\"", "'0_1_0'", "'1010'"] {
             v.push(lc(&format!("bits:{b}"), b, "BIT_STRING"));
         }
-        for s in ["\"abc\"", "\"a\\\"b\"", "'sq'", "\"stdgates.inc\"", "\"x y/z.qasm\"", "\"\"", "\"//\"", "\"/* x\"", "\"a'b\"", "'a\"b'", "\"01a\"", "\"0 1\""] {
+        for s in ["\"abc\"", "\"a\\\"b\"", "'sq'", "\"stdgates.inc\"", "\"x y/z.qasm\"", "\"\"", "\"//\"", "\"/* x\"", "\"a'b\"", "'a\"b'", "\"01a\"", "\"0 1\"", "'a\\\\'", "'\\\\'", "\"a\\\\\"", "'it\\'s'"] {
             v.push(lc(&format!("str:{s}"), s, "STRING"));
         }
         for (i, c) in ["/* c */", "/* a /* b */ c */", "/**/", "/***/", "/*/ x */", "/*// y */", "/* * / */", "/* \" ' */", "/*\n int x; \n*/", "/** doc **/"].iter().enumerate() {
@@ -110,7 +110,7 @@ pub fn classes() -> &'static Vec<LexClass> {
             c.line_terminated = true;
             v.push(c);
         }
-        for h in ["OPENQASM 3.0", "OPENQASM 3", "OPENQASM  3.14"] {
+        for h in ["OPENQASM 3.0", "OPENQASM 3", "OPENQASM  3.14", "OPENQASM\n3.0", "OPENQASM\t3", "OPENQASM \r\n  3.1"] {
             v.push(lc(&format!("version:{h}"), h, "VERSION_STRING"));
         }
         v
